@@ -41,6 +41,7 @@ def rand_exec(rng, nops):
     kind = rng.choice(KINDS)
     kinds = {1: kind, 2: kind if rng.random() < 0.9 else rng.choice(KINDS)}
     nkeys = rng.choice([3, 5, 8, 12, 16])
+    sg = -1 if rng.random() < 0.3 else 1         # negative keys: hash values beyond 32 bits (hash(Tracked) = (usize)value)
     target = min(nkeys, rng.choice([2, 4, 6, 9, 12]))
     keys = {1: [], 2: []}                      # the generator's own idea of the contents (only to pick useful arguments)
     for i in (1, 2):
@@ -53,7 +54,7 @@ def rand_exec(rng, nops):
         n = len(ks)
         same = kinds[1] == kinds[2]
         n = len(keys[i])
-        k = rng.randint(1, nkeys)
+        k = sg * rng.randint(1, nkeys)
         if ks and rng.random() < (0.2 if n < target else 0.4):
             k = rng.choice(ks)                 # a key that is present
         v = rng.randint(1, 3)
